@@ -27,6 +27,8 @@ PRIORS.append(('battery-other-box-swarm-gsa-const', '7', [
     {'cls': 'PSO', 'mod': 'pso', 'n_vars': 3, 'box': [0.5, 0.75]}, {'cls': 'PSO', 'mod': 'pso', 'n_vars': 1, 'box': [100.0, 101.0]}]))
 # direct use of the library's random / distribution / selection primitives before the task (scalar requests, odd counts)
 PRIORS.append(('primitive-calls', '5', [{'cls': '__primitives__'}]))
+# the process-wide logging configuration changed before the task (logging.disable): a message that is only built when it is enabled
+PRIORS.append(('logging-disabled', '13', [{'cls': '__logging_off__'}]))
 CHILD = os.path.join(os.path.dirname(os.path.abspath(__file__)), 'c05_child.py')
 
 
